@@ -35,7 +35,7 @@ PROPS = {
         "assumptions": ["ParseFloat key order-isomorphic to float order", "trial names are unique (Kubernetes)"],
     },
     "C03": {
-        "prop_files": ["Katib/Props/C03.lean", "Katib/Props/C03Ctl.lean", 'Katib/Props/C03World.lean'],
+        "prop_files": ["Katib/Props/C03.lean", "Katib/Props/C03Ctl.lean", 'Katib/Props/C03World.lean', 'Katib/Props/C03Frozen.lean'],
         "streams": [("C03", {"quick": 30000, "thorough": 600000}), ("SIM", {"quick": 240, "thorough": 8000})],
         "rule": "same generator as C05 with stored conditions in every completion state (none/Succeeded by 3 reasons/Failed/stale False verdicts), "
                 "budgets maxTrialCount 1-6 or unset, maxFailedTrialCount 0-4 or unset, goal set/unset; non-trivial = at least one trial with a metric",
@@ -55,7 +55,7 @@ PROPS = {
                     "fake algorithm / early-stopping / DB-manager services", "typed reads inside a reconcile come from a snapshot (informer cache), run objects are read live"],
         "modelled": ["ReconcileExperiment.Reconcile / ReconcileSuggestion.Reconcile / ReconcileTrial.Reconcile and helpers as Katib.Ctl.expPlan / sugPlan / trialPlan",
                      "API-server semantics as Katib.Ctl.applyCall", "the op/step state machine Katib.Ctl.step"],
-        "level_text": 'C01_total: for every list of simulator operations (reconciles of the three controllers in any order, every typed kind read from an arbitrary earlier snapshot, any fault mask and abort point, any environment events) an unedited experiment with maxTrialCount = m never has more than m trials, its suggestion never more than m assignments nor requests > m, every trial is named by an assignment and assignments only grow by appending (invariant WInv + Past, resourceVersion identifies content); C01_parallel: over every such list the trials of an experiment that are not completed never exceed parallelTrialCount (#trials <= #assignments <= #completed + parallel; completion is permanent, so a stale view only under-counts completed trials); plan-level theorem for no-create-after-verdict; model tied to the real reconcilers by exact store/write-log correspondence on generated schedules; observed stores judged by the C01 oracle',
+        "level_text": 'C01_total: for every list of simulator operations (reconciles of the three controllers in any order, every typed kind read from an arbitrary earlier snapshot, any fault mask and abort point, any environment events) an unedited experiment with maxTrialCount = m never has more than m trials, its suggestion never more than m assignments nor requests > m, every trial is named by an assignment and assignments only grow by appending (invariant WInv + Past, resourceVersion identifies content); C01_parallel: over every such list the trials of an experiment that are not completed never exceed parallelTrialCount (#trials <= #assignments <= #completed + parallel; completion is permanent, so a stale view only under-counts completed trials); plan-level theorem for no-create-after-verdict; model tied to the real reconcilers by exact store/write-log correspondence on generated schedules; observed stores judged by the C01 oracle; C03_frozen_verdict_world (no hypothesis on the schedule: any lag, faults, aborts, budget edits, deletions): an Experiment that some snapshot shows Created and completed with a verdict that is not restartable (Failed, goal reached, suggestion end, any verdict under Never) still exists with the identical condition list and completion time (history relation EPast with the resourceVersion check, plan guard FGuard)',
         "level_note": "trusted: Lean kernel; harness/check; fake client as API server; views monotone per kind; the tie between Lean model and Go controllers is differential (sampling)",
         "assumptions": ["informer caches are monotone per kind", "run objects are removed by others only after their Trial completed", "algorithm service returns fresh names"],
     },
